@@ -302,4 +302,117 @@ theorem parseArgs_typing (cmd : Char) (raw : List Char) (args : List Arg) (h : p
   have := peel_typing _ _ 0 _ args h k hk
   rw [this, arcSlotIsFlag_eq, Nat.zero_add]
 
+/-! arity of every command `parse_svg_path(s, exploded=True)` yields -/
+
+theorem numArgs_implicitRepeat (c : Char) : numArgs (implicitRepeat c) = numArgs c := by
+  unfold implicitRepeat
+  have h : Gen.implicitRepeat = [('m', 'l'), ('M', 'L')] := by decide
+  rw [h]
+  by_cases h1 : c = 'm'
+  · subst h1; decide
+  · by_cases h2 : c = 'M'
+    · subst h2; decide
+    · have e1 : (c == 'm') = false := by simp [h1]
+      have e2 : (c == 'M') = false := by simp [h2]
+      simp [List.lookup, e1, e2]
+
+/-- the per-command body of the loop in `parse` -/
+def parseOne (exploded : Bool) (cmd : Char) (raw : List Char) : Except PyErr (List (Char × List Arg)) := do
+  let args ← parseArgs cmd (Str.strip raw)
+  let k ← checkCmd cmd args.length
+  if k == 0 || !exploded then pure [(cmd, args)] else pure (explode k cmd args)
+
+theorem checkCmd_ok (cmd : Char) (n k : Nat) (h : checkCmd cmd n = .ok k) :
+    numArgs cmd = some k ∧ (k = 0 → n = 0) ∧ (0 < k → n % k = 0) := by
+  unfold checkCmd at h
+  cases hn : numArgs cmd with
+  | none => rw [hn] at h; cases h
+  | some k' =>
+    rw [hn] at h
+    cases k' with
+    | zero =>
+      simp only at h
+      split at h
+      · cases h
+      · injection h with h; subst h; rename_i hz
+        exact ⟨rfl, fun _ => by simpa using hz, by omega⟩
+    | succ j =>
+      simp only at h
+      split at h
+      · cases h
+      · injection h with h; subst h; rename_i hz
+        exact ⟨rfl, by omega, fun _ => by simpa using hz⟩
+
+theorem parseOne_arity (cmd : Char) (raw : List Char) (out : List (Char × List Arg))
+    (h : parseOne true cmd raw = .ok out) : ∀ e ∈ out, numArgs e.1 = some e.2.length := by
+  unfold parseOne at h
+  simp only [bind, Except.bind] at h
+  split at h
+  · cases h
+  · rename_i args ha
+    split at h
+    · cases h
+    · rename_i k hk
+      obtain ⟨hn, h0, hpos⟩ := checkCmd_ok _ _ _ hk
+      by_cases hk0 : k = 0
+      · subst hk0
+        simp [pure, Except.pure] at h; subst h
+        intro e he; simp at he; subst he; simp [hn, h0 rfl]
+      · have : (k == 0 || !true) = false := by simp [hk0]
+        rw [this] at h; simp [pure, Except.pure] at h; subst h
+        intro e he
+        have := (explode_flatten k (by omega) cmd args (hpos (by omega))).2 e he
+        rcases this with ⟨hl, hc | hc⟩
+        · rw [hc, hl]; exact hn
+        · rw [hc, hl, numArgs_implicitRepeat]; exact hn
+theorem forIn_inv {α β : Type} (P : β → Prop) (f : α → List β → Except PyErr (ForInStep (List β)))
+    (hf : ∀ x r s, f x r = .ok s → ∃ l, s = ForInStep.yield (r ++ l) ∧ ∀ e ∈ l, P e)
+    (parts : List α) (acc out : List β) (hacc : ∀ e ∈ acc, P e)
+    (h : forIn parts acc f = .ok out) : ∀ e ∈ out, P e := by
+  induction parts generalizing acc with
+  | nil => simp [pure, Except.pure] at h; subst h; exact hacc
+  | cons x xs ih =>
+    rw [List.forIn_cons] at h
+    simp only [bind, Except.bind] at h
+    split at h
+    · cases h
+    · rename_i s hs
+      obtain ⟨l, hl, hP⟩ := hf x acc s hs
+      subst hl
+      simp only at h
+      exact ih (acc ++ l) (by intro e he; rcases List.mem_append.mp he with h | h; exact hacc e h; exact hP e h) h
+
+theorem parse_arity (cs : List Char) (out : List (Char × List Arg)) (h : parse true cs = .ok out) :
+    ∀ e ∈ out, numArgs e.1 = some e.2.length := by
+  unfold parse at h
+  simp only [] at h
+  simp only [bind, Except.bind] at h
+  split at h
+  · cases h
+  · rename_i o ho
+    simp [pure, Except.pure] at h; subst h
+    refine forIn_inv (fun e => numArgs e.1 = some e.2.length) _ ?_ _ [] o (by simp) ho
+    intro x r s hs
+    have hone : ∀ l, parseOne true x.1 x.2 = .ok l → ∀ e ∈ l, numArgs e.1 = some e.2.length :=
+      fun l hl => parseOne_arity x.1 x.2 l hl
+    unfold parseOne at hone
+    simp only [bind, Except.bind] at hone hs
+    split at hs
+    · cases hs
+    · rename_i args ha
+      rw [ha] at hone; simp only at hone
+      split at hs
+      · cases hs
+      · rename_i k hk
+        rw [hk] at hone; simp only at hone
+        split at hs
+        · rename_i hc
+          simp [pure, Except.pure] at hs; subst hs
+          refine ⟨_, rfl, hone _ ?_⟩
+          rw [if_pos hc]; rfl
+        · rename_i hc
+          simp [pure, Except.pure] at hs; subst hs
+          refine ⟨_, rfl, hone _ ?_⟩
+          rw [if_neg hc]; rfl
+
 end PicoSVG.PathLex
